@@ -126,6 +126,11 @@ class Policy(object):
         elif kind == "table":
             tab = [rnd.uniform(0.0, 30.0) for _ in range(64)]
             self.fn = lambda k: tab[k % 64]
+        elif kind.startswith("table:"):      # reproducible non-monotone table: "table:<seed>"
+            import random as _random
+            r2 = _random.Random(int(kind[6:]))
+            tab2 = [r2.uniform(0.0, 30.0) for _ in range(64)]
+            self.fn = lambda k: tab2[k % 64]
         else:
             self.fn = lambda k: 1.0
 
@@ -207,6 +212,18 @@ class Impl(object):
         en = self.enabled(ev)
         del self.log[:]
         log = self.log
+        try:
+            self._dispatch(ev, k, en, log)
+        except Exception as e:      # anything the model does not know (AlreadyCalledError, KeyError in a callback, ..):
+            self.last_exc = repr(e)  # recorded as an output so that monitors can report the history that provoked it
+            log.append(("raised", 99))
+        outs = self._canon(list(log))
+        rec = (ev, int(bool(self.client.connected())), outs, en)
+        self.records.append(rec)
+        return rec
+
+    def _dispatch(self, ev, k, en, log):
+        from afkak.common import DuplicateRequestError
         if not en:
             pass
         elif k == "make":
@@ -254,10 +271,6 @@ class Impl(object):
                 self.client.updateMetadata(self.BrokerMetadata(1 if ev[1] else 2, "h%d" % ev[2], 9092 + ev[2]))
             except ValueError:
                 log.append(("raised", 3))
-        outs = self._canon(list(log))
-        rec = (ev, int(bool(self.client.connected())), outs, en)
-        self.records.append(rec)
-        return rec
 
     def _canon(self, log):
         outs = []
@@ -573,6 +586,8 @@ def monitor(records, which=("C06", "C10")):
     conn = 0                  # 0 = no live connection
     nconn = 0
     written = {}              # handle -> connection number it was last written on
+    outstanding = []          # handles written on the current connection and not yet answered by a frame, in write order
+                              # (cancelled ones included: the broker answers them all the same, in order)
     stream = b""              # bytes delivered on the current connection
     nframes = 0               # frames of `stream` already accounted for
     aborted = False           # the current connection hit the length limit / a short frame
@@ -608,6 +623,8 @@ def monitor(records, which=("C06", "C10")):
             continue
         if any(o[0] in ("raised",) and o[1] == 5 for o in outs):
             B("C06_exactly_once", "canceller raised KeyError")
+        if any(o[0] == "raised" and o[1] == 99 for o in outs):
+            B("C06_exactly_once" if c06 else "C10_reachable", "event %r raised an exception no legal behaviour includes (AlreadyCalledError, KeyError, ...)" % (ev,))
         if any(o[0] == "abort" for o in outs):
             B("C10_close", "abortConnection is not part of the modelled behaviour")
 
@@ -652,6 +669,7 @@ def monitor(records, which=("C06", "C10")):
             nconn += 1
             conn = nconn
             stream, nframes, aborted = b"", 0, False
+            outstanding = []
             failures = 0
             if closed:
                 pass
@@ -677,6 +695,7 @@ def monitor(records, which=("C06", "C10")):
             exp_defs = []
         elif k == "lost":
             conn = 0
+            outstanding = []
             exp_defs = []
             if not closed:
                 want = [("connect", addr)] if pending_before else []
@@ -699,10 +718,15 @@ def monitor(records, which=("C06", "C10")):
                     if len(f) < 4:
                         continue
                     cid = struct.unpack(">i", f[:4])[0]
-                    for h in sorted(pend):
+                    # the frame answers the EARLIEST request with that id written on this connection and not yet
+                    # answered; if that one was cancelled meanwhile the frame completes nothing - in particular not a
+                    # later request that happens to carry the same id
+                    for h in outstanding:
                         if rid[h] == cid:
-                            exp_defs.append((h, 1, f))
-                            pend.discard(h)
+                            outstanding.remove(h)
+                            if h in pend:
+                                exp_defs.append((h, 1, f))
+                                pend.discard(h)
                             break
                 if status == "limit":
                     aborted = True
@@ -784,6 +808,8 @@ def monitor(records, which=("C06", "C10")):
                 if not (0 <= h < len(rid)) or rid[h] != o[2]:
                     B("C10_resend", "write of an unknown request %r" % (o,))
                 written[h] = nconn
+                if conn and 0 <= h < len(rid) and expect[h]:      # the broker sends no reply to a no-reply request
+                    outstanding.append(h)
             elif o[0] == "def":
                 fired[o[1]] = o[2]
             elif o[0] == "closefired":
